@@ -111,6 +111,21 @@ def run(ctx, blocks, visit, new_acc, tasks_per_block=None):
     return accs
 
 
+def run_single_task(blocks, visit, new_acc, name, lo, hi, tier=None):
+    """Run one task in this process and return its accumulator."""
+    global _BLOCKS, _VISIT, _NEWACC, _TIER
+    from ..ref import tables
+
+    for b in blocks:
+        if b.prefix is None:
+            b.prefix = tables.PREFIX[b.family]
+    _BLOCKS, _VISIT, _NEWACC, _TIER = blocks, visit, new_acc, tier
+    for bi, b in enumerate(blocks):
+        if b.name == name:
+            return _task((bi, lo, hi))
+    raise core.HarnessError("block %r not found" % name)
+
+
 def replay_task(blocks, visit, new_acc, case):
     """Re-run, in this (fresh) process, the task that produced `case` up to the failing input.
     Returns (violates, detail)."""
